@@ -486,6 +486,8 @@ class SubRoutine(GlobalValue):
         """Add an argument to this function"""
         assert isinstance(parameter, Parameter)
         parameter.num = len(self.arguments)
+        # Values defined later must not take the name of a parameter:
+        self.make_unique_name(parameter)
         self.arguments.append(parameter)
         # p.parent = self.entry
 
